@@ -447,17 +447,132 @@ def minimise(build_fuzz, build_asan, data, exclusions, want_sigs, root):
 
 
 # ------------------------------------------------------------------------------ part B hook
+PART_B_MODULES = ["c01", "c02", "c05", "c13", "c12"]
+UB_LINE = re.compile(r"^(?P<file>\S+?):(?P<line>\d+):(?P<col>\d+): runtime error: (?P<msg>.*)$")
+
+
+def _scan_sanitizer(text):
+    """UBSan diagnostics located in library code (sources under /repo/src or generated from its .m4 files)"""
+    out = []
+    for ln in text.splitlines():
+        m = UB_LINE.match(ln.strip())
+        if not m:
+            continue
+        f = m.group("file")
+        if "/harness/" in f or "/openmpi" in f or f.startswith("/usr/"):
+            continue
+        if "/src/" in f or "/gen/" in f:
+            msg = m.group("msg")
+            if "applying non-zero offset" in msg and "null pointer" in msg:
+                # OpenMPI defines MPI_Aint_add(base, disp) as pointer arithmetic on (char*)base; the library legitimately calls it
+                # with relative addresses (base 0).  The report is about the MPI header's macro, not about library code.
+                continue
+            what = re.sub(r"0x[0-9a-f]+", "ADDR", msg)
+            what = re.sub(r"-?\b\d[\d.e+]*\b", "N", what)[:90]
+            cls = "misaligned" if "misaligned address" in msg else ("overflow" if "overflow" in msg else "other")
+            out.append({"kind": "ubsan", "msg": "UndefinedBehaviorSanitizer: %s:%s: %s" % (os.path.basename(f), m.group("line"), msg[:200]),
+                        "sig": {"kind": "ubsan", "file": os.path.basename(f), "what": what, "class": cls}})
+    return out
+
+
+def _part_b_script(modname, case):
+    import importlib
+    mod = importlib.import_module("checks." + modname)
+    if modname == "c12":
+        p = mod.build(case, bb=True)[0]
+    else:
+        p = mod.build(case)[0]
+    return p
+
+
+def _part_b_run(ctx, modname, case):
+    """run one script of another property's generator on the sanitizer build; problems = sanitizer reports in library code"""
+    from pv.pool import hx
+    p = _part_b_script(modname, case)
+    pool = ctx.pool("asan", nprocs=4)
+    pool.stderr_delta()
+    d = pool.newdir()
+    os.makedirs(os.path.join(d, "bb"), exist_ok=True)
+    for i, line in enumerate(p.s.lines):
+        p.s.lines[i] = line.replace(hx("$DIR/bb"), hx(os.path.join(d, "bb")))
+    orig = pool.newdir
+    pool.newdir = lambda: d
+    try:
+        try:
+            res, d2 = pool.run(p.s, keepdir=False)
+        finally:
+            pool.newdir = orig
+            shutil.rmtree(d, ignore_errors=True)
+    except runner.PoolError as e:
+        tail = e.stderr_tail
+        probs = _scan_sanitizer(tail)
+        if e.kind == "crash":
+            m = re.search(r"(AddressSanitizer: [\w-]+)", tail)
+            m2 = re.search(r"#\d+ 0x[0-9a-f]+ in (\w+) \S*/(src|gen)/", tail)
+            probs.append({"kind": "asan", "msg": "crash while running a %s script: %s" % (modname, (m.group(1) if m else e.detail)[:200]),
+                          "sig": {"kind": "asan", "what": m.group(1) if m else "exit", "func": m2.group(1) if m2 else None}, "stderr": tail[-2500:]})
+        return probs, set()
+    labels = set()
+    txt = "\n".join(p.s.lines)
+    if "api=bput" in txt:
+        labels.add("b_attached_buffer")
+    if "form=varn" in txt:
+        labels.add("b_varn")
+    if "nc_burst_buf" in txt:
+        labels.add("b_burst_buffer")
+    return _scan_sanitizer(pool.stderr_delta()), labels
+
+
 def part_b(ctx_like):
-    """HOOK for part B (valid programs of the other properties under the sanitizer build).
-    ctx_like has .tier, .seed, .build (dict variant -> build dir), .known (runner.Known), .count(label), .notes (list).
-    Return a list of (case, problems) pairs; case must be JSON-serialisable with case["kind"] != "file" and replayable by
-    part_b_run_case().  Coverage numbers can be added to ctx_like.coverage_b (dict)."""
-    return []
+    """Part B: a sample of the scripts produced by the other properties' generators (fixed per seed) is executed on the
+    ASan+UBSan build; any sanitizer report located in library code is a violation with the script's case as replay."""
+    from hypothesis import given, settings, seed, HealthCheck, Phase, Verbosity
+    import importlib
+    n_each = {"quick": 50, "thorough": 1000}[ctx_like.tier]
+    out = []
+    nrun = 0
+    nt = set()
+    seen = set()
+    for modname in PART_B_MODULES:
+        mod = importlib.import_module("checks." + modname)
+        cases = []
+
+        @seed(ctx_like.seed * 7919 + len(modname) + sum(map(ord, modname)))
+        @settings(max_examples=n_each, database=None, deadline=None, suppress_health_check=list(HealthCheck), phases=[Phase.generate], verbosity=Verbosity.quiet)
+        @given(mod.case_strategy(ctx_like.tier))
+        def collect(case):
+            cases.append(case)
+        try:
+            collect()
+        except Exception as e:
+            ctx_like.notes.append("part B: generating %s cases failed: %s" % (modname, e))
+        for case in cases:
+            try:
+                probs, labels = _part_b_run(ctx_like, modname, case)
+            except Exception as e:
+                ctx_like.notes.append("part B harness exception (%s): %s" % (modname, str(e)[:300]))
+                continue
+            nrun += 1
+            ctx_like.count("b_scripts_" + modname, *labels)
+            if labels:
+                nt.add(runner.case_hash(case))
+            for pr in probs:
+                pr["sig"]["module"] = modname
+                key = json.dumps(pr["sig"], sort_keys=True)
+                if key in seen:
+                    continue
+                seen.add(key)
+                out.append(({"kind": "script", "module": modname, "case": case}, [pr]))
+    ctx_like.coverage_b = {"part_b_scripts": nrun, "part_b_nontrivial_scripts": len(nt), "part_b_modules": PART_B_MODULES}
+    return out
 
 
 def part_b_run_case(ctx, case):
-    """replay of a part B case (not implemented yet)"""
-    return []
+    """replay of a part B case: {"kind":"script","module":"c02","case":{...}}"""
+    probs, _ = _part_b_run(ctx, case["module"], case["case"])
+    for pr in probs:
+        pr["sig"]["module"] = case["module"]
+    return probs
 
 
 # ------------------------------------------------------------------------------ main flow
